@@ -49,8 +49,22 @@ public:
     }
     friend bool operator!=(script_engine const& a, script_engine const& b) { return !(a == b); }
 
-    friend std::ostream& operator<<(std::ostream& o, script_engine const& e) { return o << e.pos_ << ' ' << e.tail_; }
-    friend std::istream& operator>>(std::istream& i, script_engine& e) { return i >> e.pos_ >> e.tail_; }
+    // the textual form carries the whole script, so that a checkpoint written to text can be resumed
+    friend std::ostream& operator<<(std::ostream& o, script_engine const& e)
+    {
+        o << e.pos_ << ' ' << e.tail_ << ' ' << e.script_->size();
+        for (auto v : *e.script_) { o << ' ' << v; }
+        return o;
+    }
+    friend std::istream& operator>>(std::istream& i, script_engine& e)
+    {
+        std::size_t n = 0;
+        i >> e.pos_ >> e.tail_ >> n;
+        auto s = std::make_shared<std::vector<std::uint64_t>>(n);
+        for (auto& v : *s) { i >> v; }
+        e.script_ = s;
+        return i;
+    }
 
 private:
     std::shared_ptr<std::vector<std::uint64_t>> script_;
